@@ -51,6 +51,8 @@ def mirror(ops, chains):
 
 def make_scenarios(behs, rnd, per_backend, backends, maxt, maxd):
     scs = []
+    # TLC's workers print behaviours in no particular order: sort, so that the seed alone decides what is sampled
+    behs = sorted(behs, key=lambda b: json.dumps(b, sort_keys=True))
     for b in backends:
         pick = behs if per_backend >= len(behs) else rnd.sample(behs, per_backend)
         for ops in pick:
